@@ -1,4 +1,4 @@
-import GateryModel.C03.LemmasSigned
+import GateryModel.C03.LemmasSMul
 /-!
 # C03 — property theorems: operators compute their mathematical definition at every width
 
@@ -12,8 +12,9 @@ All theorems quantify over **all widths** (`0`, `> 64`, `> 128` included — no 
 operand values**; `toNat` / `toInt` read a vector as an unsigned / two's-complement number.  Definitions compared
 against: `C03/Spec.lean`.  Statements only; the work is in `C03/Lemmas*.lean`.
 
-Places where the code does *not* compute the definition are stated as theorems as well (`…_defect`), with the
-concrete witness the check re-discovers on the real code.
+The defects the check found on the way (static shifts beyond the width, signed comparison overflow, mixed-width signed
+multiplication) have been repaired in /repo; the theorems below are about the code as it is now, historical witnesses are
+labelled as such.
 -/
 namespace Gatery.C03.Props
 open Gatery.Nodes Gatery.C03 BV4
@@ -207,24 +208,21 @@ theorem sext_toInt (a r : BV4) (w : Nat) (ha : a.allDef = true) (h : Spec.extend
     · cases hp
     · exact toInt_sext a _ (by omega) ha
 
-/-- `mul(SInt, SInt)` of different widths multiplies `abs` values that inherit the operand's *sign* expansion policy:
-    `sext(-2 : 2 bit) * (1 : 4 bit)` evaluates to `+2`.  Re-discovered by the check as `op=mul class=mixed-widths/…`. -/
-theorem signed_mul_defect :
-    smul .sign .none [.f, .t] [.t, .f, .f, .f] = .ok [.f, .t, .f, .f] ∧
-    Spec.extend .sign [.f, .t] 4 = some [.f, .t, .t, .t] ∧
-    Spec.smul 4 [.f, .t, .t, .t] [.t, .f, .f, .f] = [.f, .t, .t, .t] := by
-  refine ⟨rfl, by decide, by decide⟩
+/-- **signed multiplication `mul(SInt, SInt)`, every combination of widths and expansion policies**
+    (`SignalArithmeticOp.cpp:49-77`: equal widths use the unsigned node, different widths multiply the magnitudes `abs(·)` —
+    which carry *zero* expansion since `2477763` — and negate by the XOR of the signs): the product of the two's-complement
+    readings modulo `2^max(widths)`.  With different widths both operands need a sign bit (`hz`; the frontend rejects an empty one).
+    Before `2477763` `abs` kept the operand's sign policy and `sext(-2 : 2 bit) * (1 : 4 bit)` evaluated to `+2`
+    (`x * SInt(-2) = 2x`); the check had re-discovered that as `op=mul class=mixed-widths/narrower-operand-policy-s`. -/
+theorem signed_mul_correct (pa pb : Pol) (a b : BV4) (ha : a.allDef = true) (hb : b.allDef = true)
+    (hz : a.length ≠ b.length → 1 ≤ a.length ∧ 1 ≤ b.length) :
+    smul pa pb a b = .ok (Spec.smul (max a.length b.length) a b) :=
+  smul_eq_spec pa pb a b ha hb hz
 
-/-- equal widths: the signed product is the unsigned node, which is the definition modulo `2^w` -/
-theorem signed_mul_equal_widths (pa pb : Pol) (a b : BV4) (hl : a.length = b.length)
-    (ha : a.allDef = true) (hb : b.allDef = true) :
-    smul pa pb a b = .ok (Spec.mul a.length a b) := by
-  unfold smul
-  rw [if_pos hl]
-  have hn : Spec.norm pa pb a b = some (a, b, a.length) := by
-    unfold Spec.norm Spec.extend
-    simp [hl]
-  rw [arith_eq_spec .MUL pa pb a b a b a.length hn ha hb]; rfl
+/-- `abs(SInt)`: the magnitude as an unsigned number of the same width -/
+theorem signed_abs_correct (a : BV4) (hl : 1 ≤ a.length) (ha : a.allDef = true) :
+    sabs a = .ok (ofNat a.length (mag a)) ∧ a.toInt = (if a.bit (a.length - 1) = .t then -((mag a : Nat) : Int) else (mag a : Nat)) :=
+  ⟨sabs_eq a hl ha, toInt_eq_mag a hl ha⟩
 
 /-! ### non-vacuity: premises are satisfiable on non-trivial instances (a 65-bit and a 3-bit operand, sign policy) -/
 
@@ -233,6 +231,7 @@ example : Spec.norm .none .sign (ofNat 65 (2^64 + 5)) [.t, .f, .t] =
 example : (ofNat 65 (2^64 + 5)).allDef = true ∧ BV4.allDef [.t, .f, .t] = true := by decide
 example : (Spec.shift .left .rotate [.t, .f, .f] 1) = [.f, .t, .f] := by decide
 example : staticShift .right .last [.t, .f, .t] 7 = [.t, .t, .t] ∧ staticShift .left .rotate [.t, .f, .f] 4 = [.f, .t, .f] := ⟨rfl, rfl⟩
+example : smul .sign .none [.f, .t] [.t, .f, .f, .f] = .ok [.f, .t, .t, .t] ∧ toInt [.f, .t, .t, .t] = -2 := ⟨rfl, by decide⟩
 example : slt [.f, .t] [.t, .f] = .ok [.t] ∧ toInt [.f, .t] = -2 ∧ toInt [.t, .f] = 1 := ⟨rfl, by decide, by decide⟩
 
 end Gatery.C03.Props
